@@ -91,6 +91,10 @@ pub struct ExecSpec {
     /// through one real `LinkValidator::run` on the main thread (C06).
     #[serde(default)]
     pub seq_pass: bool,
+    /// Stored state left by an earlier run: the `-o` file and the statistics file already exist with
+    /// unrelated content (drawn from this seed) when the run starts. They must be replaced, not extended.
+    #[serde(default)]
+    pub stale_outputs: Option<u64>,
 }
 
 impl ExecSpec {
@@ -113,6 +117,7 @@ impl ExecSpec {
             io: IoSpec::default(),
             timeout_ms: 60_000,
             seq_pass: false,
+            stale_outputs: None,
         }
     }
     pub fn cmdline(&self) -> String {
@@ -345,6 +350,13 @@ pub fn exec(spec: &ExecSpec, wd: &WorkDir) -> ExecResult {
     for e in ["json", "toml"] {
         let _ = std::fs::remove_file(wd.p(&format!("stats.{e}")));
         let _ = std::fs::remove_file(wd.p(&format!("instats.{e}")));
+    }
+    if let Some(seed) = spec.stale_outputs {
+        let mut rng = fpsim_rt::rng::Rng::new(seed);
+        let mut junk = vec![0u8; 64 + rng.usize_below(4000)];
+        rng.fill(&mut junk);
+        let _ = std::fs::write(&p.out, &junk);
+        let _ = std::fs::write(&p.stats, b"{\"stale\": true, \"left_by\": \"an earlier run\"}\n# stale\n");
     }
     let mut input_id = None;
     if spec.input_mode == InputMode::File && spec.argv.iter().any(|a| a.contains("@IN@")) {
